@@ -35,7 +35,8 @@ CONSTANT KnownDeviations   \* ids of findings listed as known: enables Dev_<id>
 
 Tol       == 2            \* ms per gap: tokio's timer wheel rounds a deadline up to the next ms (DESIGN 3.2)
 SAT       == 100000000    \* ms (27.7 h): durations are saturated here; ">= SAT" reads "unbounded"
-RealSlack == 10000        \* ms: upper-bound allowance for gaps measured on the real clock over sockets
+RealSlack == SAT          \* gaps measured on the real clock (cdn family) are judged by their LOWER bound only:
+                          \* no verdict may depend on a wall-clock upper bound (a loaded machine is not a defect)
 
 Min2r(a, b) == IF a < b THEN a ELSE b
 CeilDiv(a, b) == (a + b - 1) \div b
